@@ -169,3 +169,27 @@ void h_null (void)
 	     p_rwlock_reader_unlock (NULL) == FALSE && p_rwlock_writer_unlock (NULL) == FALSE && g_locks == 0, "NULL lock: FALSE, nothing touched");
 	CANARY ("end");
 }
+
+/* ---- a failing condition wait (pthread_cond_wait reporting an error): the blocked call gives up with FALSE, takes no
+ * hold, and -- like every other exit -- removes its waiting registration inside the same critical section; a stale
+ * registration would make later releases signal the wrong condition (lost wake-up) */
+void h_writer_lock_waitfail (void)
+{
+	PRWLock *l = mk_lock (); g_wait_may_fail = 1;
+	pboolean r = p_rwlock_writer_lock (l);
+	OBL ((r == TRUE || r == FALSE) && BRACKET_OK, "one critical section, mutex released, whatever the wait reports");
+	OBL (g_waits == 0 ? U_waiting == A_waiting : (WR (U_waiting) == WR (A_waiting) - 1 && RD (U_waiting) == RD (A_waiting)), "waiting-writer registration is removed exactly once, also when the wait failed");
+	if (r == TRUE) OBL (A_active == 0 && WR (U_active) == 1 && RD (U_active) == 0, "TRUE: entered as the one writer when nobody held the lock");
+	else { OBL (g_waits >= 1 && U_active == A_active, "FALSE only after a failed wait, and then no hold is taken"); CANARY ("wait failed"); }
+	if (r == TRUE && g_waits > 0) CANARY ("entered after waiting");
+}
+void h_reader_lock_waitfail (void)
+{
+	PRWLock *l = mk_lock (); g_wait_may_fail = 1;
+	pboolean r = p_rwlock_reader_lock (l);
+	OBL ((r == TRUE || r == FALSE) && BRACKET_OK, "one critical section, mutex released, whatever the wait reports");
+	OBL (g_waits == 0 ? U_waiting == A_waiting : (RD (U_waiting) == RD (A_waiting) - 1 && WR (U_waiting) == WR (A_waiting)), "waiting-reader registration is removed exactly once, also when the wait failed");
+	if (r == TRUE) OBL (WR (A_active) == 0 && U_active == ((A_active & ~0x7FFFu) | (RD (A_active) + 1)), "TRUE: reader count +1 in a state without active writer");
+	else { OBL (g_waits >= 1 && U_active == A_active, "FALSE only after a failed wait, and then no hold is taken"); CANARY ("wait failed"); }
+	if (r == TRUE && g_waits > 0) CANARY ("entered after waiting");
+}
